@@ -143,9 +143,9 @@ func init() {
 	reg(&PropDef{
 		ID:     "C04",
 		Level:  "proof",
-		Funcs: []string{"tcell.(*tScreen).EnablePaste", "tcell.(*tScreen).DisablePaste", "tcell.(*tScreen).EnableFocus", "tcell.(*tScreen).DisableFocus", "tcell.(*tScreen).DisableMouse",
+		Funcs: []string{"tcell.(*tScreen).EnablePaste", "tcell.(*tScreen).DisablePaste", "tcell.(*tScreen).EnableFocus", "tcell.(*tScreen).DisableFocus", "tcell.(*tScreen).DisableMouse", "tcell.(*tScreen).EnableMouse",
 			"tcell.(*tScreen).enableMouse", "tcell.(*tScreen).enablePasting", "tcell.(*tScreen).enableFocusReporting", "tcell.(*tScreen).engage"},
-		Custom: []func(*PropRun){c04Disengage},
+		Custom: []func(*PropRun){c04Disengage, c04TtyLifecycle},
 		Trusted: []string{"terminfo pairing of on/off capabilities (smcup/rmcup, smkx/rmkx, civis/cnorm, sgr0, op, smam/rmam) and the xterm private modes tcell hard-codes (1000/1002/1003/1006, 2004, 1004, title stack 22/23;2t, DECSCUSR, OSC 12/112) as the oracle of what 'off' means",
 			"Tty methods: assumed interface contracts (they return; Stop/Drain/NotifyResize touch no screen state)"},
 		Assume: []string{"disengage is evaluated with t.buffering = true so that its output is collected in t.buf (TPuts/writeString differ only in the destination they pass on)",
